@@ -43,7 +43,8 @@ BUDGET = {
     'quick': dict(runs=24000, wall=45),
     'thorough': dict(runs=600000, wall=540),
 }
-RUNS_SCALE = {'C02': 0.35, 'C09': 0.4, 'C10': 0.4, 'C18': 0.4, 'C07': 0.6}   # per-property multipliers (heavier oracles run fewer histories)
+RUNS_SCALE = {'C02': 0.35, 'C09': 0.4, 'C10': 0.4, 'C18': 0.4, 'C07': 0.6, 'C12': 2.5, 'C13': 2.5, 'C15': 2.5, 'C20': 2.0,
+              'C17': 1.5}   # per-property multipliers (heavier oracles run fewer histories)
 
 
 def run_seeds(vseed, focus, n):
@@ -73,20 +74,20 @@ def work(args):
         agg['steps'] += len(res.ops)
         agg['guard'].update(res.guard_hits)
         if res.status == 'violation' and len(agg['viols']) < 4:
-            agg['viols'].append((s, res.violation, res.ops))
+            agg['viols'].append((s, res.violation, res.ops, res.profile))
         elif res.status in ('precondition', 'abort'):
             agg['notes'][(res.status + ': ' + (res.note or ''))[:160]] += 1
         if len(agg['samples']) < 2 and res.status == 'ok' and 3 <= len(res.ops) <= 9:
             agg['samples'].append({'seed': s, 'ops': res.ops})
         if res.status == 'ok' and engine.FOCUS[focus].get('variants'):
             for vi, vops in enumerate(engine.fault_variants(res)):
-                r2 = engine.run(focus, ops_list=vops, profile=profile)
+                r2 = engine.run(focus, ops_list=vops, profile=res.profile)
                 agg['stats']['variants.run'] += 1
                 agg['stats'].update(r2.stats)
                 agg['evals'] += r2.evals
                 agg['trans'] |= r2.trans
                 if r2.status == 'violation' and len(agg['viols']) < 4:
-                    agg['viols'].append(('%s-v%d' % (s, vi), r2.violation, r2.ops))
+                    agg['viols'].append(('%s-v%d' % (s, vi), r2.violation, r2.ops, r2.profile))
     faulthandler.cancel_dump_traceback_later()
     return agg
 
@@ -141,13 +142,14 @@ def batch(focus, vseed, tier, runs=None, jobs=None, wall=None, profile=None):
 
 
 # ---------------------------------------------------------------------------- replay files
-def write_replay(focus, seed, ops, violation, minimised_from=None, tag=None):
+def write_replay(focus, seed, ops, violation, minimised_from=None, tag=None, profile=None):
     d = os.path.join(ROOT, 'replays')
     os.makedirs(d, exist_ok=True)
     path = os.path.join(d, '%s-%s.json' % (focus, tag or seed))
     with open(path, 'w') as f:
         json.dump({'property': focus, 'seed': seed, 'hashseed': os.environ.get('PYTHONHASHSEED'),
-                   'ops': ops, 'violation': violation, 'minimised_from_ops': minimised_from},
+                   'ops': ops, 'violation': violation, 'minimised_from_ops': minimised_from,
+                   'profile': {k: v for k, v in (profile or {}).items() if k in ('check_every', 'poke', 'tier')}},
                   f, indent=1, default=repr)
     return path
 
@@ -166,13 +168,13 @@ def replay_file(focus, path, quiet=False):
     return res
 
 
-def minimise_and_report(focus, seed, violation, ops):
+def minimise_and_report(focus, seed, violation, ops, profile=None):
     from . import engine, shrink
     sig = (violation['oracle'], violation['sub'])
-    small, calls = shrink.minimise(ops, sig, lambda c: engine.run(focus, ops_list=c))
-    res = engine.run(focus, ops_list=small)
+    small, calls = shrink.minimise(ops, sig, lambda c: engine.run(focus, ops_list=c, profile=profile))
+    res = engine.run(focus, ops_list=small, profile=profile)
     v = res.violation if res.status == 'violation' else violation
-    path = write_replay(focus, seed, small, v, minimised_from=len(ops))
+    path = write_replay(focus, seed, small, v, minimised_from=len(ops), profile=profile)
     # the minimised file must reproduce in a fresh interpreter before it is reported
     p = subprocess.run([sys.executable, os.path.join(ROOT, 'check'), focus, '--replay', path],
                        capture_output=True, text=True, timeout=300)
@@ -337,16 +339,16 @@ def main(argv=None):
     if total['viols']:
         rc = 1
         seen = set()
-        for seed, v, ops_ in total['viols']:
+        for seed, v, ops_, prof in [x for x in total['viols'] if x]:
             sig = (v['oracle'], v['sub'])
             if sig in seen or len(seen) >= 3:
                 continue
             seen.add(sig)
             if a.no_min:
-                path = write_replay(focus, seed, ops_, v)
+                path = write_replay(focus, seed, ops_, v, profile=prof)
                 ok, v2, ln = True, v, len(ops_)
             else:
-                path, ok, v2, ln = minimise_and_report(focus, seed, v, ops_)
+                path, ok, v2, ln = minimise_and_report(focus, seed, v, ops_, prof)
             reported.append({'replay': path, 'oracle': v2['oracle'], 'sub': v2['sub'], 'ops': ln,
                              'reproduced_in_fresh_interpreter': ok})
             print("VIOLATION property=%s replay=%s" % (focus, path))
